@@ -101,5 +101,17 @@ TEXTS = {
          "sampling flag per scope) afterwards equals the context before, provided the id prefix is non-zero (K3 "
          "boundary). Tied to the code by orchestrated single-thread and adapter histories comparing contexts, parents "
          "and attachment targets. !Send of guards is a compile-time fact, not a theorem.", "DESIGN.md 6/C10"),
+ "C19": ("Kernel-checked theorems for the Jaeger reporter: convert transmits ids exactly (128-bit trace id as two "
+         "recombining halves), name/tags/log fields unchanged and in order, times in whole microseconds; zig-zag and "
+         "varint round-trip for every 64-bit value (top bit set included). The Thrift compact emitBatch encoder is "
+         "modelled in Gallina and compared BYTE FOR BYTE with the datagrams the real reporter sends over loopback UDP on "
+         "every run; the oracle re-derives a segmentation of the batch from the code's datagrams. Datadog and "
+         "OpenTelemetry: not yet modelled (partial, see DESIGN.md).", "DESIGN.md 6/C19"),
+ "C20": ("Kernel-checked theorem for every batch and EVERY size function: try_report's loop terminates within 2n+1 "
+         "iterations, every emitted batch is non-empty and below the limit, and the emitted batches are the input in "
+         "order minus spans that were too large alone; a span that fits alone is never dropped. Obligation over the "
+         "literals translated from the source on every run (limit <= 8000, >=, <= 1, / 2). Tied to the code by comparing "
+         "datagram boundaries on batches straddling the limit byte by byte and oversize spans at every position.",
+         "DESIGN.md 6/C20"),
  "C12": ("Kernel-checked theorems over all 2^128 x 2^64 x 2 contexts and all byte strings (round trip, 55-byte shape, exact characterisation of the accepted language, rejection clauses, Display/FromStr/serde) about a Gallina model of id.rs; the model is tied to the code on every run by running the real codec functions and the extracted model on the same generated strings/contexts and comparing every result, and by re-checking an obligation over the literals translated from id.rs. No panic is checked by catch_unwind on the generated inputs only (partial).", "DESIGN.md 6/C12"),
 }
